@@ -11,6 +11,7 @@ def leg(name, flavour="plain", leg="", batches=1, timeout=None, parallel=1, tier
     return d
 
 PLANS = {
+    "C02": {"level": "exploration", "exhaustive": False, "legs": [leg("main"), leg("race", flavour="race", tiers=("thorough",), env={"VERIF_SMALL": "1"})]},
     "C15": {"level": "exploration", "exhaustive": False, "legs": [leg("main")]},
     "C20": {"level": "exploration", "exhaustive": True, "legs": [leg("main")]},
 }
